@@ -41,7 +41,7 @@ Inductive top :=
 
 Inductive result :=
 | RRej (status : N)                              (* refused with this status; nothing stored *)
-| RPanic                                         (* the handler panics (nil map assignment) *)
+| RPanic                                         (* the handler panics (nil map assignment): only the tree as found, see accept_gen *)
 | RStored (ms : list (bytes * vk)) (verbatim : bool)
     (* accepted.  ms: the stored body as a decoder sees it (distinct keys).  verbatim = true: the stored bytes
        are the request text as received -- shadowed duplicates, whitespace, escapes and trailing bytes included;
@@ -71,20 +71,24 @@ Definition post (b : list member) : outcome :=
   else db_put b.
 
 (* ---------- PutExistingRevWithBody (new_edits=false) ----------
-   validateAPIDocUpdate first; [expiry, _ := body.ExtractExpiry()] -- the error is dropped, so an _exp that is
-   not a valid expiry stays in the body; ExtractDeleted / ExtractRev delete the member whatever its value;
-   _id, _revisions, _attachments are deleted; _cv is not looked at.  validateNewBody runs in prepareSyncFn. *)
-Definition ne_removed : list bytes := [k_deleted; k_rev; k_id; k_revisions; k_attachments].
+   validateAPIDocUpdate first; ExtractExpiry -- an _exp that is not an expiry is refused with 400 (repair d54ae5f; as
+   found the error was dropped and the member stayed in the body); ExtractDeleted / ExtractRev delete the member
+   whatever its value; _cv (repair d51088e), _id, _revisions, _attachments are deleted.  validateNewBody runs in
+   prepareSyncFn. *)
+Definition ne_removed : list bytes := [k_deleted; k_rev; k_cv; k_id; k_revisions; k_attachments].
 
 Definition put_existing (b : list member) : outcome :=
   if has_key k_sync b then ORej 400
-  else
-    let b1 := remove_keys ((match extract_expiry b with ExpTaken => [k_exp] | _ => [] end) ++ ne_removed) b in
+  else match extract_expiry b with
+  | ExpBad => ORej 400
+  | e =>
+    let b1 := remove_keys ((match e with ExpTaken => [k_exp] | _ => [] end) ++ ne_removed) b in
     match validate_new_body b1 with
     | Some s => ORej s
     | None => if match kind_of k_deleted b with Some KTrue => true | _ => false end
               then ODeleted else OStored (stored b1)
-    end.
+    end
+  end.
 
 (* handlePutDoc in front of it: the _id member must be the path's document id *)
 Definition rest_put_ne (b : list member) : outcome :=
@@ -111,17 +115,16 @@ Definition is_bulk (e : entry) : bool := match e with EBulk | EBulkNE => true | 
 
 Definition accept (e : entry) (t : top) : result :=
   match e, t with
-  | EBlipDelta, _ => RRej 400                                   (* "Deltas are disabled for this peer" *)
-  (* a text that is not a JSON value *)
-  | (EBlip), TInvalid => RRej 500                               (* GetDeepMutableBody: "Unable to unmarshal" *)
-  | _, TInvalid => RRej 400                                     (* REST: "Bad JSON"; import: "Invalid JSON" *)
+  | EBlipDelta, _ => RRej 400                                   (* "Deltas are disabled for this peer" (a body that is not
+                                                                   JSON is refused just before, with 400 as well) *)
+  (* a text that is not a JSON value: REST "Bad JSON"; BLIP json.Valid (repair b5cfb32); import "Invalid JSON" *)
+  | _, TInvalid => RRej 400
   (* array, string, number, boolean *)
   | (EBlip | EImport | EImportFeed), TNonObj => RRej 500
   | _, TNonObj => RRej 400
-  (* null decodes into a nil map without error *)
-  | (EPost | EBlip), TNull => RPanic                            (* prepareSyncFn: mutableBody[BodyId] = ... on a nil map *)
-  | (EImport | EImportFeed), TNull => RRej 404                  (* ErrEmptyDocument, shown as not found *)
-  | _, TNull => RRej 400                                        (* handlePutDoc: ErrEmptyDocument; _bulk_docs: "must be JSON" *)
+  (* null decodes into a nil map without error: ErrEmptyDocument (POST and BLIP since the repair 0a738b1) *)
+  | (EImport | EImportFeed), TNull => RRej 404                  (* shown as not found *)
+  | _, TNull => RRej 400
   | _, TObj raw tr =>
       let b := dedupe raw in
       match e with
@@ -130,7 +133,8 @@ Definition accept (e : entry) (t : top) : result :=
       | EBulk => if tr then RRej 400 else lift false (db_put b) (* the element sits inside the docs array *)
       | EPutNE => lift false (rest_put_ne b)
       | EBulkNE => if tr then RRej 400 else lift false (put_existing b)
-      | EBlip => lift (negb (blip_remarshals raw)) (blip_rev_gen blip_check_fixed b)
+      | EBlip => if tr then RRej 400                            (* json.Valid: exactly one JSON value (repair b5cfb32) *)
+                 else lift (negb (blip_remarshals raw)) (blip_rev_gen blip_check_fixed b)
       | EImport => lift true (import_doc b)
       | EImportFeed => if tr then RRej 404 else lift true (import_doc b)   (* the feed skips a value that is not JSON *)
       | EBlipDelta => RRej 400
@@ -164,9 +168,9 @@ Definition consumed_e (e : entry) (m : member) : bool :=
   | None => consumed_ne m
   end.
 
-(* the keys no entry point ever stores -- the exact common set *)
+(* the keys no entry point ever stores -- the exact common set (_cv since the repair d51088e) *)
 Definition reserved_everywhere (k : bytes) : bool :=
-  mem k [k_id; k_rev; k_revisions; k_sync; k_purged] || has_prefix k_sync_ k.
+  mem k [k_id; k_rev; k_revisions; k_cv; k_sync; k_purged] || has_prefix k_sync_ k.
 
 (* the properties the read paths add; a stored member with one of these names can be shadowed or duplicated *)
 Definition read_keys : list bytes := [k_id; k_rev; k_revisions; k_exp; k_cv; k_deleted; k_attachments].
@@ -175,9 +179,8 @@ Definition read_keys : list bytes := [k_id; k_rev; k_revisions; k_exp; k_cv; k_d
 Definition leak (e : entry) (k : bytes) (v : vk) : bool :=
   (bytes_eqb k k_exp && vk_eqb v KNull && negb (match e with EImport | EImportFeed | EBlipDelta => true | _ => false end))
   || match e with
-     | EPutNE | EBulkNE => (bytes_eqb k k_exp && negb (vk_eqb v KNum)) || bytes_eqb k k_cv
-     | EBlip => bytes_eqb k k_cv || (bytes_eqb k k_attachments && vk_eqb v KNull)
-     | EImport | EImportFeed => mem k [k_cv; k_deleted; k_attachments]
+     | EBlip => bytes_eqb k k_attachments && vk_eqb v KNull
+     | EImport | EImportFeed => mem k [k_deleted; k_attachments]
      | _ => false
      end.
 
@@ -186,8 +189,8 @@ Definition leak (e : entry) (k : bytes) (v : vk) : bool :=
    members away and is left out).  validateBlipBody and the _exp/_attachments shortcuts look at the raw DELTA text:
    a member that comes from the source body is inspected only if the delta text contains a backslash or mentions
    the name. *)
-Definition blip_rev_chk (chk : member -> bool) (b : list member) : outcome :=
-  if existsb (fun m => mem (mkey m) blip_disallowed && chk m) b then ORej 404
+Definition blip_rev_chk (dis : list bytes) (chk : member -> bool) (b : list member) : outcome :=
+  if existsb (fun m => mem (mkey m) dis && chk m) b then ORej 404
   else
     let e := match find_key k_exp b with
              | Some m => if chk m then extract_expiry b else ExpAbsent
@@ -213,4 +216,79 @@ Definition patched (src : list (bytes * vk)) (delta : list member) : list member
 
 Definition blip_delta_ee (src : list (bytes * vk)) (delta_raw : list member) : outcome :=
   let delta := dedupe delta_raw in
-  blip_rev_chk (fun m => existsb mesc delta_raw || mem (mkey m) (map mkey delta)) (patched src delta).
+  blip_rev_chk blip_disallowed (fun m => existsb mesc delta_raw || mem (mkey m) (map mkey delta)) (patched src delta).
+
+(* ================= the tree as found, defect by defect =================
+   [accept] above describes the repaired tree.  [accept_gen fx] has one switch per repair; with all switches on it is
+   [accept] (accept_gen_repaired, AcceptProofs.v); with one off it is the behaviour that repair removed, which
+   C19_Refuted.v refutes and the monitors replay on a tree with that commit reverted. *)
+Record fixes := { fx_null : bool;       (* 0a738b1  prepareSyncFn: a nil body is ErrEmptyDocument *)
+                  fx_trailing : bool;   (* b5cfb32  processRev: json.Valid(bodyBytes) *)
+                  fx_exp : bool;        (* d54ae5f  PutExistingRevWithBody: ExtractExpiry error -> 400 *)
+                  fx_cv : bool }.       (* d51088e  _cv deleted by PutExistingRevWithBody, refused by BLIP and import *)
+
+Definition repaired : fixes := {| fx_null := true; fx_trailing := true; fx_exp := true; fx_cv := true |}.
+
+Definition blip_disallowed_of (cvf : bool) : list bytes :=
+  if cvf then [k_sync; k_id; k_rev; k_cv; k_deleted; k_revisions] else [k_sync; k_id; k_rev; k_deleted; k_revisions].
+Definition import_disallowed_of (cvf : bool) : list bytes :=
+  if cvf then [k_id; k_rev; k_cv; k_exp; k_revisions] else [k_id; k_rev; k_exp; k_revisions].
+Definition ne_removed_of (cvf : bool) : list bytes :=
+  if cvf then [k_deleted; k_rev; k_cv; k_id; k_revisions; k_attachments] else [k_deleted; k_rev; k_id; k_revisions; k_attachments].
+
+Definition put_existing_gen (fx : fixes) (b : list member) : outcome :=
+  if has_key k_sync b then ORej 400
+  else match extract_expiry b with
+  | ExpBad =>
+    if fx_exp fx then ORej 400
+    else let b1 := remove_keys (ne_removed_of (fx_cv fx)) b in
+         match validate_new_body b1 with
+         | Some s => ORej s
+         | None => if match kind_of k_deleted b with Some KTrue => true | _ => false end
+                   then ODeleted else OStored (stored b1)
+         end
+  | e =>
+    let b1 := remove_keys ((match e with ExpTaken => [k_exp] | _ => [] end) ++ ne_removed_of (fx_cv fx)) b in
+    match validate_new_body b1 with
+    | Some s => ORej s
+    | None => if match kind_of k_deleted b with Some KTrue => true | _ => false end
+              then ODeleted else OStored (stored b1)
+    end
+  end.
+
+Definition import_doc_dis (dis : list bytes) (b : list member) : outcome :=
+  if match kind_of k_sync b with Some KNull | Some KObj | None => false | Some _ => true end then ORej 500
+  else if existsb (fun m => mem (mkey m) dis) b then ORej 404
+  else if has_key k_sync b then ORej 404
+  else match validate_new_body b with
+       | Some _ => ORej 404
+       | None => OStored (stored b)
+       end.
+
+Definition accept_gen (fx : fixes) (e : entry) (t : top) : result :=
+  match e, t with
+  | EBlipDelta, _ => RRej 400
+  | EBlip, TInvalid => if fx_trailing fx then RRej 400 else RRej 500
+  | _, TInvalid => RRej 400
+  | (EBlip | EImport | EImportFeed), TNonObj => RRej 500
+  | _, TNonObj => RRej 400
+  | (EPost | EBlip), TNull => if fx_null fx then RRej 400 else RPanic
+  | (EImport | EImportFeed), TNull => RRej 404
+  | _, TNull => RRej 400
+  | _, TObj raw tr =>
+      let b := dedupe raw in
+      match e with
+      | EPut => lift false (rest_put b)
+      | EPost => lift false (post b)
+      | EBulk => if tr then RRej 400 else lift false (db_put b)
+      | EPutNE => lift false (if match kind_of k_id b with Some KStr => true | _ => false end then ORej 400
+                              else put_existing_gen fx b)
+      | EBulkNE => if tr then RRej 400 else lift false (put_existing_gen fx b)
+      | EBlip => if tr && fx_trailing fx then RRej 400
+                 else lift (negb (blip_remarshals raw))
+                           (blip_rev_chk (blip_disallowed_of (fx_cv fx)) (visible blip_check_fixed) b)
+      | EImport => lift true (import_doc_dis (import_disallowed_of (fx_cv fx)) b)
+      | EImportFeed => if tr then RRej 404 else lift true (import_doc_dis (import_disallowed_of (fx_cv fx)) b)
+      | EBlipDelta => RRej 400
+      end
+  end.
